@@ -65,11 +65,11 @@ Proof.
   rewrite src_Rectangle_intersection_eq by assumption. reflexivity.
 Qed.
 
-Definition img_ok (img : image_raw) : Prop :=
+Definition src_img_ok (img : image_raw) : Prop :=
   0 <= sw (ir_size img) <= i32_max /\ 0 <= sh (ir_size img) <= i32_max /\ 0 < ir_bpp img <= u32_max /\ 0 <= data_width img <= u32_max.
 
 Theorem src_sub_image_draw_eq s :
-  img_ok (SubImage_ImageRaw_parent s) -> size_i32 (sz (SubImage_ImageRaw_area s)) ->
+  src_img_ok (SubImage_ImageRaw_parent s) -> size_i32 (sz (SubImage_ImageRaw_area s)) ->
   px (tl (SubImage_ImageRaw_area s)) <= i32_max -> py (tl (SubImage_ImageRaw_area s)) <= i32_max ->
   let img := SubImage_ImageRaw_parent s in
   let r := src_SubImage_ImageRaw_draw (raw_load (ir_bpp img) (ir_alt img)) (ir_bpp img) log_fill s [] in
@@ -81,7 +81,7 @@ Proof.
 Qed.
 
 Theorem src_sub_image_draw_sub_image_eq s area :
-  img_ok (SubImage_ImageRaw_parent s) ->
+  src_img_ok (SubImage_ImageRaw_parent s) ->
   let a := translate_rect area (tl (SubImage_ImageRaw_area s)) in
   size_i32 (sz a) -> px (tl a) <= i32_max -> py (tl a) <= i32_max ->
   let img := SubImage_ImageRaw_parent s in
